@@ -373,18 +373,15 @@ def judge_component(cx, op, xs, res, kind):
 
 
 # ------------------------------------------------------------------ round trips
-def classify_halfrank_roundtrip(xs, warped, unwarped, tol):
-  """signature of a failing half-rank round trip on the real code"""
-  uniq = set(xs)
-  for x, w, u in zip(xs, warped, unwarped):
-    if abs(u - x) <= tol:
-      continue
-    if u == w and w != x:
-      return KEY_UNWARP_MEDIAN, x, u
-    if u in uniq:
-      return KEY_UNWARP_LOOKUP, x, u
-    return 'unwarp-roundtrip-other:halfrank', x, u
-  return None, None, None
+def classify_halfrank_roundtrip(x, u, fin, hr_warped, tol):
+  """signature of a failing round trip through the half-rank inverse on the real code:
+  x the observed label, u what came back, hr_warped the half-rank images of `fin`"""
+  wx = [w for f, w in zip(fin, hr_warped) if f == x]
+  if wx and abs(u - wx[0]) <= tol and abs(wx[0] - x) > tol:
+    return KEY_UNWARP_MEDIAN          # the warped value came back unchanged
+  if any(abs(u - f) <= tol for f in set(fin) if f != x):
+    return KEY_UNWARP_LOOKUP          # another observed label came back
+  return None
 
 
 def roundtrip(cx, op, xs, kind):
@@ -433,17 +430,10 @@ def roundtrip(cx, op, xs, kind):
   else:
     key = 'unwarp-roundtrip-other:' + op
     if op in ('default', 'halfrank'):
-      # attribute to the half-rank inverse by its signature on the NaN-free labels
-      r2 = real.warp('halfrank', fin, keep=True)
-      if r2['exc'] is None:
-        try:
-          with np.errstate(all='ignore'):
-            u2 = [float(v) for v in np.asarray(r2['warper'].unwarp(np.array(r2['raw_out'], copy=True))).reshape(-1)]
-          k2, _, _ = classify_halfrank_roundtrip(fin, r2['out'], u2, tol)
-          if k2 is not None:
-            key = k2
-        except Exception:  # pylint: disable=broad-except
-          pass
+      # attribute to the half-rank inverse by its signature
+      r2 = real.warp('halfrank', fin)
+      if r2['exc'] is None and r2['out'] is not None and len(r2['out']) == len(fin):
+        key = classify_halfrank_roundtrip(x, u, fin, r2['out'], tol) or key
   c.prop_fail(key, what, dict(case, unwarped=jl(un), failing_index=i))
 
 
@@ -485,7 +475,7 @@ def tie_cases(cx, cases):
     c.traces += 1
     fin = [x for x in xs if math.isfinite(x)]
     nontrivial = len(set(fin)) < len(fin) or len(fin) < len(xs) or cls != 'ok'
-    c.count(1, (op, json.dumps(jl(xs))) if nontrivial else None, kind='%s:%s' % (op, kind))
+    c.count(1, (op, json.dumps(jl(xs))) if nontrivial else None, kind='%s:%s' % (op, kind.split(':')[0]))
     # ---- property on the real output
     if op in ('default', 'outlier', 'infeasible'):
       judge_pipeline(cx, op, xs, res, kind)
@@ -713,7 +703,7 @@ def run(c):
     return c.finish(level='proof', rule='replay of ' + c.replay_path)
   witnesses(cx)
   malformed_stream(cx)
-  n = 200 if c.tier == 'quick' else 2000
+  n = 200 if c.tier == 'quick' else 2500
   cases = [gen_labels(c.rng, c.tier) for _ in range(n)]
   for i in range(0, len(cases), 500):
     tie_cases(cx, cases[i:i + 500])
